@@ -29,7 +29,9 @@ NOTES = [
     "that are not Exceptions escape by design (c18_non_exception_escapes)",
     "line bound: relative to the parser numbering nodes 1..nlines (CPython universal newlines) and issues being "
     "located at AST nodes (locate = node.lineno + line_offset)",
-    "rows of non-stdlib modules (designer, drafter, PIL, ...) are covered by the table theorem only, not by calls",
+    "functions of third-party modules pedal also describes (designer, drafter, PIL, matplotlib, microbit, bakery, "
+    "cisc106/108) are outside the property ('imports of standard modules'): their rows are generated as "
+    "extensionRows and reported in the translate info, but neither the theorem nor the search gates on them",
 ]
 
 INJECT_PREFIX = "print(undefined_a)\nprint(undefined_b)\n"
@@ -328,9 +330,12 @@ def search(rng, tier, broken, corr):
         consider(case["code"], case.get("must_complete", False), "corpus")
     for code in SPECIAL:
         consider(code, False, "special")
+    for code in tw.state_leak_programs():
+        consider(code, False, "state-leak probe")
     for t, n, code in progs:
         if code is None:
-            skip("table row without a call template (non-stdlib module)")
+            skip("table row without a call (third-party module: outside the subset)" if t.startswith("extmodule:")
+                 else "table row without a well-typed call found")
         else:
             consider(code, True, "builtin-call %s/%s" % (t, n))
     for code in snippets:
@@ -369,6 +374,15 @@ def search(rng, tier, broken, corr):
                               "tifa_analysis raised in an A-B-A history", a + "\n#----\n" + b, "history", {}))
             continue
         if len(recs) == 5:
+            # determinism across histories: what a program gets on a report that analysed other programs before
+            # is what it gets on a report of its own
+            for code_k, rec in ((a, recs[0]), (b, recs[1])):
+                alone = tw.observe(code_k, repeats=0)
+                if alone.get("calls") and alone["calls"][0]["issues"] != rec["issues"]:
+                    sig = {"kind": "nondeterministic", "what": "history"}
+                    first.setdefault(json.dumps(sig, sort_keys=True),
+                                     (sig, "A-B history: a program's issues on a report that analysed another program first differ "
+                                           "from its issues on a fresh report", a + "\n#----\n" + b, "history", {}))
             if recs[2]["issues"] != recs[0]["issues"] or recs[4]["issues"] != recs[0]["issues"] or recs[3]["issues"] != recs[1]["issues"]:
                 sig = {"kind": "not-idempotent", "what": "issues"}
                 first.setdefault(json.dumps(sig, sort_keys=True), (sig, "A-B-A history: the repeated analysis returned different issues",
@@ -386,6 +400,13 @@ def search(rng, tier, broken, corr):
         rp = {"code": small, "origin": origin, "kwargs": kw, "must_complete": sig.get("kind") == "analysis-failed"}
         if small != code:
             rp["unshrunk_code"] = code
+        if sig.get("kind") == "nondeterministic":
+            alone = tw.standalone_nondeterministic(small, kw.get("filename"))
+            rp["reproduces_in_a_new_interpreter"] = alone
+            if not alone:
+                what += (" | NOTE: two analyses of this text agree in a new interpreter, so the difference depends on state "
+                         "left behind by programs analysed EARLIER in this run (shared Type objects); re-run the same "
+                         "seed and tier to reproduce, or look for attribute/element stores on shared types")
         failures.append(Failure(sig, what + " | from: " + origin, rp))
     info["distinct_nontrivial"] = len(nontrivial)
     info["samples"] = [f.replay["code"][:300] for f in failures][:3]
